@@ -249,6 +249,8 @@ impl<'a> StoreWorld<'a> {
         if matches!(self.focus, "C13" | "C18" | "C16" | "C06") {
             // specification: head = greatest timestamp among the author's entries held
             self.lines.push(Line::oracle(format!("sheads 1 {nsh}"), format!("headts {}", heads_tok(&headts))));
+            // … and the key recorded with a head is the key of an entry of that author with that timestamp
+            self.lines.push(Line::oracle(format!("sheadkeys 1 {nsh} {}", if hs.is_empty() { "-".to_string() } else { hs.join(";") }), "head-keys-name-held-entries"));
         }
         if self.focus == "C18" || self.focus == "C16" {
             // key-ordered queries answered through the by-key index (rebuilt, C18; untouched by the
